@@ -641,13 +641,19 @@ func (e *executor) getStageInputs(
 }
 
 func (e *executor) preValidateCompatibility(rootSchema schema.Scope, inputField any, propertySchema *schema.PropertySchema,
-	workflowContext map[string][]byte) error {
+	workflowContext map[string][]byte) (err error) {
 	// Get the type/value structure
 	inputTypeStructure, err := e.createTypeStructure(rootSchema, inputField, workflowContext)
 	if err != nil {
 		return err
 	}
-	// Now validate
+	// Now validate. The SDK compares the bounds of the two schemas without checking that both sides have them, and
+	// panics for example on a string with only a maximum length against one with only a minimum length.
+	defer func() {
+		if r := recover(); r != nil {
+			err = fmt.Errorf("failed to validate the compatibility of the schemas (%v)", r)
+		}
+	}()
 	return propertySchema.ValidateCompatibility(inputTypeStructure)
 }
 
